@@ -53,10 +53,15 @@ enum Verdict {
 }
 
 fn compile_info(files: &[(String, String)], defines: &[(&str, &str)], tgt: Tgt, mode: &Mode) -> Verdict {
+    compile_info_vl(files, defines, tgt, mode, false)
+}
+
+fn compile_info_vl(files: &[(String, String)], defines: &[(&str, &str)], tgt: Tgt, mode: &Mode, validate_layout: bool) -> Verdict {
     let r = guard(|| {
         let mut inc = MemFiles(files.to_vec());
         let mut args = rssl::CompileArgs::new("main.rssl", &mut inc, tgt.target())
             .defines(defines)
+            .validate_layout_consistency(validate_layout)
             .support_buffer_address(tgt.buffer_address());
         match mode {
             Mode::All => {}
@@ -215,6 +220,8 @@ pub const VARIANTS: &[&str] = &[
     "wide-odd-rich",
     "wide-on",
     "wide-rich-inc",
+    "layout-trap-vl",
+    "plain-vl",
 ];
 
 fn decls_of(p: &Program) -> Vec<DeclDesc> {
@@ -415,7 +422,7 @@ fn build_with(seed: u64, variant: &str, drops: &str) -> Option<Built> {
         .unwrap_or(nlines);
     drop(lines);
     src = match variant {
-        "plain" | "state" => src,
+        "plain" | "state" | "plain-vl" => src,
         v if v.starts_with("reserved-") || v.starts_with("entry-") => src,
         "pp-guard" => format!("#ifndef MAIN_GUARD\n#define MAIN_GUARD\n{}#endif\n#ifndef MAIN_GUARD\nthis is never parsed @\n#endif\n", src),
         "pp-macros" => {
@@ -470,7 +477,7 @@ fn build_with(seed: u64, variant: &str, drops: &str) -> Option<Built> {
             includes.push(("common/decls.rssl".into(), common));
             main
         }
-        "layout-trap" => {
+        "layout-trap" | "layout-trap-vl" => {
             // a struct whose HLSL structured-buffer layout and Metal layout differ: accepted everywhere as long as the
             // optional layout validation is off for every target
             decls.push(DeclDesc { name: "g_trap".into(), kind: "StructuredBuffer".into(), len: "-".into(), ss: false });
@@ -834,8 +841,10 @@ fn run_cross(seed: u64, variant: &str, out: &mut Out, hist: &mut Hist) {
     let mut files = vec![("main.rssl".to_string(), b.src.clone())];
     files.extend(b.includes.iter().cloned());
     let defs: Vec<(&str, &str)> = b.defines.iter().map(|(a, c)| (a.as_str(), c.as_str())).collect();
+    // `<variant>-vl`: the optional layout validation is requested for every target
+    let validate = variant.split('~').next().unwrap_or("").ends_with("-vl");
     let results: Vec<(Tgt, Verdict)> =
-        ALL_TARGETS.iter().map(|t| (*t, compile_info(&files, &defs, *t, &Mode::All))).collect();
+        ALL_TARGETS.iter().map(|t| (*t, compile_info_vl(&files, &defs, *t, &Mode::All, validate))).collect();
     let decls: Vec<String> =
         b.decls.iter().map(|d| format!("{}:{}:{}:{}", d.name, d.kind, d.len, if d.ss { 1 } else { 0 })).collect();
     let pipe_names: Vec<String> = match &b.wide_pipes {
@@ -1119,6 +1128,95 @@ fn run_cross(seed: u64, variant: &str, out: &mut Out, hist: &mut Hist) {
     }
     let oracle = if fails.is_empty() { "ok".to_string() } else { format!("FAIL:{}", fails[0]) };
     out.case(&req, &obs, &oracle);
+}
+
+// ------------------------------------------------------------------------------------------------ C18.simplify
+
+/// `C18.simplify <program>`: the root definitions that go back to the program's resources after the real
+/// `assign_api_bindings` (Metal parameters) + `simplify_cbuffers`, in order:
+/// `struct:<name>:<members>`, `global:<name>:<ConstantBuffer|obj|plain>:<slot|noslot>`, `cbuffer:<name>`.
+/// Oracle: no cbuffer block is left; every block of the program (empty ones too) has become a struct `<name>Type` with its
+/// members directly followed by a bound `ConstantBuffer` global of the block's name; nothing else was added or removed.
+fn run_simplify(prog_s: &str, out: &mut Out, hist: &mut Hist) {
+    let req = format!("C18.simplify\t{}", prog_s);
+    let Some(prog) = WProgram::parse(prog_s) else {
+        out.case(&req, "", "SKIP:bad program");
+        return;
+    };
+    let r = render_wide(&prog, &RenderOpts { include: false });
+    let names: Vec<String> = prog.resources().iter().map(|r| r.name.clone()).collect();
+    let cbuffers: Vec<(String, u32)> =
+        prog.resources().iter().filter(|r| r.kind == "cbuffer").map(|r| (r.name.clone(), r.len.unwrap_or(1))).collect();
+    let res = guard(|| -> Result<(Vec<String>, usize, usize), String> {
+        let m = front_end("main.rssl", &r.files, &[]).map_err(|e| e.text().to_string())?;
+        let m = m.assign_api_bindings(&rssl::AssignBindingsParams {
+            require_slot_type: false,
+            support_buffer_address: false,
+            metal_slot_layout: true,
+            static_samplers_have_slots: false,
+        });
+        let before = m.root_definitions.len();
+        let mut m = m;
+        rssl::ir::simplify_cbuffers(&mut m);
+        let mut v = Vec::new();
+        for d in &m.root_definitions {
+            match d {
+                rssl::ir::RootDefinition::Struct(id) => {
+                    let sd = &m.struct_registry[id.0 as usize];
+                    if cbuffers.iter().any(|(n, _)| format!("{}Type", n) == sd.name.node) {
+                        v.push(format!("struct:{}:{}", sd.name.node, sd.members.len()));
+                    }
+                }
+                rssl::ir::RootDefinition::GlobalVariable(id) => {
+                    let g = &m.global_registry[id.0 as usize];
+                    if names.contains(&g.name.node) {
+                        let ty = m.type_registry.remove_modifier(g.type_id);
+                        let ty = match m.type_registry.get_type_layer(ty) {
+                            rssl::ir::TypeLayer::Array(inner, _) => m.type_registry.remove_modifier(inner),
+                            _ => ty,
+                        };
+                        let kind = match m.type_registry.get_type_layer(ty) {
+                            rssl::ir::TypeLayer::Object(rssl::ir::ObjectType::ConstantBuffer(_)) => "ConstantBuffer",
+                            rssl::ir::TypeLayer::Object(_) => "obj",
+                            _ => "plain",
+                        };
+                        v.push(format!("global:{}:{}:{}", g.name.node, kind, if g.api_slot.is_some() { "slot" } else { "noslot" }));
+                    }
+                }
+                rssl::ir::RootDefinition::ConstantBuffer(id) => {
+                    v.push(format!("cbuffer:{}", id.0));
+                }
+                _ => {}
+            }
+        }
+        Ok((v, before, m.root_definitions.len()))
+    });
+    match res {
+        Ok(Ok((v, before, after))) => {
+            let mut fails: Vec<String> = Vec::new();
+            if v.iter().any(|x| x.starts_with("cbuffer:")) {
+                fails.push("a cbuffer block survives simplify_cbuffers".into());
+            }
+            for (n, members) in &cbuffers {
+                let want = [format!("struct:{}Type:{}", n, members), format!("global:{}:ConstantBuffer:slot", n)];
+                match v.iter().position(|x| *x == want[0]) {
+                    Some(i) if v.get(i + 1) == Some(&want[1]) => {}
+                    _ => fails.push(format!("cbuffer {} ({} members) did not become `{}` followed by `{}`", n, members, want[0], want[1])),
+                }
+            }
+            if after != before + cbuffers.len() {
+                fails.push(format!("{} root definitions became {} with {} cbuffer blocks", before, after, cbuffers.len()));
+            }
+            hist.add(&format!("simplify-cbuffers={}", cbuffers.len()));
+            if cbuffers.iter().any(|(_, m)| *m == 0) {
+                hist.add("simplify-empty-cbuffer");
+            }
+            let oracle = if fails.is_empty() { "ok".to_string() } else { format!("FAIL:{}", fails[0]) };
+            out.case(&req, &v.join(";"), &oracle);
+        }
+        Ok(Err(e)) => out.case(&req, "front", &format!("SKIP:front end rejects the program: {}", one_line(&e.chars().take(80).collect::<String>()))),
+        Err(p) => out.case(&req, &format!("panic:{}", p), &format!("FAIL:panic {}", p)),
+    }
 }
 
 // ------------------------------------------------------------------------------------------------ C18.defines
@@ -1427,6 +1525,7 @@ pub fn run(args: &Args, out: &mut Out) {
                         run_cross(seed, f[2], out, &mut hist);
                     }
                 }
+                "C18.simplify" if f.len() == 2 => run_simplify(f[1], out, &mut hist),
                 "C18.defines" if f.len() == 2 => {
                     if let Some(t) = Tgt::parse(f[1]) {
                         run_defines(t, out);
@@ -1466,6 +1565,21 @@ pub fn run(args: &Args, out: &mut Out) {
     for i in 0..nw {
         let seed = rng.next() >> 16;
         run_cross(seed, WIDE_VARIANTS[(i as usize) % WIDE_VARIANTS.len()], out, &mut hist);
+    }
+    // the Metal-only rewrite of cbuffer blocks on accepted wide programs
+    let ns = if args.n.is_some() { 0 } else if args.thorough() { 3000 } else { 300 };
+    for i in 0..ns {
+        let mut prng = rng.fork();
+        let wo = WideOpts {
+            odd_percent: 0,
+            bad_sampler_percent: 0,
+            no_overloads: true,
+            allow_mesh: i % 2 == 0,
+            unsized_arrays: i % 3 == 0,
+            ..WideOpts::default()
+        };
+        let prog = gen_wide(&mut prng, &wo);
+        run_simplify(&prog.show(), out, &mut hist);
     }
     let defs = defs_by_target(out);
     let npp = if args.thorough() { 20000 } else { 1500 };
